@@ -137,13 +137,27 @@ def o_round(spec, r, extra):
     if r['status'] != 'ok' or r['ret'] == H_THROW: return True, f"round: {r['status']} / threw"
     o = r['outs'][0]; exp = [c_round(re), c_round(im) if kind in (1, 3) else 0.0]
     return (o[0] != exp[0] or o[1] != exp[1]), f"round({re!r}" + (f" + {im!r}i" if kind in (1, 3) else '') + f") [{['scalar', 'complex scalar', 'array', 'complex array'][kind]}] = {o[:2]}, nearest integers (halves away from zero) are {exp}"
+def o_linspace(spec, r, extra):
+    a, b, n = spec[0][1], spec[1][1], spec[2][1]
+    if r['status'] != 'ok' or r['ret'] == H_THROW: return True, f"linspace({a}, {b}, {n}): {r['status']} / threw"
+    y = r['outs'][0][:n]; sc = max(abs(a), abs(b), 1e-300)
+    if r['ret'] != n: return True, f"linspace({a}, {b}, {n}) returned {sgn(r['ret'], 32)} values"
+    for i in range(n):
+        e = float(Fraction(a) + (Fraction(b) - Fraction(a)) * i / (n - 1)) if n > 1 else b
+        if not (abs(y[i] - e) <= 8 * 2.0 ** -52 * sc): return True, f"linspace({a}, {b}, {n})[{i}] = {y[i]!r}, expected {e!r}"
+    return False, 'ok'
+def o_normp(spec, r, extra):
+    cplx, p, x, n = spec[0][1], spec[1][1], spec[2][1], spec[3][1]
+    if r['status'] != 'ok': return True, f"norm: {r['status']}"
+    mags = [abs(complex(x[2 * i], x[2 * i + 1])) if cplx else abs(x[i]) for i in range(n)]; e = sum(v ** p for v in mags) ** (1.0 / p)
+    return not (abs(r['ret'] - e) <= 64 * 2.0 ** -52 * max(e, 1e-300)), f"norm({'complex ' if cplx else ''}{x[:(2 if cplx else 1) * n]}, {p}) = {r['ret']!r}, (sum |x|^p)^(1/p) = {e!r}"
 def o_angle(spec, r, extra):
     re, im = spec[0][1], spec[1][1]
     if r['status'] != 'ok': return True, f"angle: {r['status']}"
     exp = math.atan2(im, re)
     bad = (r['ret'] != r['ret']) or abs(r['ret'] - exp) > 4 * 2.0 ** -52 * 4 or (exp != 0 and math.copysign(1, r['ret']) != math.copysign(1, exp) and abs(exp) > 1e-300)
     return bad, f"angle({re!r} + {im!r}i) = {r['ret']!r}, arg of that number is {exp!r}"
-ORACLES = {'shape': o_shape, 'arange': o_arange, 'arange_f': o_arange_f, 'reduce': o_reduce, 'angle': o_angle, 'power': o_power, 'round': o_round}
+ORACLES = {'shape': o_shape, 'arange': o_arange, 'arange_f': o_arange_f, 'reduce': o_reduce, 'angle': o_angle, 'power': o_power, 'round': o_round, 'linspace': o_linspace, 'normp': o_normp}
 
 def job_arange_i(res, combos):
     """start and step enumerated (concrete), stop symbolic in [-12, 12]: on every path count and values == python range(start, stop, step)"""
@@ -317,6 +331,10 @@ def job_linspace(res, n):
     claims = [z3.BoolVal(r == n)] + [m.lower(v[i]) == A + (B - A) * i / (n - 1) for i in range(n)] if n > 1 else [m.lower(v[0]) == B if isF(v[0]) else z3.BoolVal(True)]
     sol = z3.Solver(); sol.set('timeout', 60000); sol.add(z3.Not(z3.And(*claims))); c = sol.check(); res.queries += 1
     if c == z3.unsat: res.ob(True, 'LRA', f'linspace(a, b, {n}): forall a, b. value i == a + (b-a) i/(n-1); end points exact')
+    elif c == z3.sat:
+        mdl = model_dict(sol); av = model_float(mdl, 'a', 0.25); bv = model_float(mdl, 'b', 10.5)
+        if not confirm(res, PID, HARNESS, 'h_linspace', [('f64', av), ('f64', bv), ('i32', n), ('pf64', [0.0] * max(n, 1))], 'i32', 'linspace', ORACLES, 'linspace:values', f'linspace(a, b, {n}): some value is not a + (b-a) i/(n-1)', suspect_is_inconclusive=False):
+            confirm(res, PID, HARNESS, 'h_linspace', [('f64', 0.25), ('f64', 10.5), ('i32', n), ('pf64', [0.0] * max(n, 1))], 'i32', 'linspace', ORACLES, 'linspace:values', f'linspace(a, b, {n}): some value is not a + (b-a) i/(n-1)')
     else: res.inc(f'linspace n={n}: {c}')
 
 def job_angle(res):
@@ -465,7 +483,45 @@ def job_round(res):
             if timed_check(sol, res) == z3.unsat: res.ob(True, 'ground', f'{nm} at ({re!r}, {im!r})')
             else: confirm(res, PID, HARNESS, 'h_round', [('i32', kind), ('f64', re), ('f64', im), ('pf64', [0.0] * 4)], 'i32', 'round', ORACLES, f'round:{kind}', f'{nm} at ({re!r}, {im!r}) = {o}')
 
-JOBFNS = {'round': job_round, 'cumsum': job_cumsum, 'power_points': job_power_points, 'power_sym': job_power_sym, 'arange_i': job_arange_i, 'arange_f': job_arange_f, 'shape': job_shape, 'reduce': job_reduce, 'linspace': job_linspace, 'angle': job_angle}
+def job_normp(res, n):
+    """norm(x, p) for p = 3, 4, 5 (general branch), real and complex, elements symbolic: the result is pow(S, 1/p) with S a summation tree whose leaves are pow(|x_i|, p) of the element magnitudes
+    (structure over the library functions; |.| must be there: fabs / hypot), then ground points with negative elements"""
+    mod, so = load(HARNESS)
+    def mag_ok(t, i, cplx):
+        # t must be the magnitude of element i: fabs(x_i) for real data, hypot(re_i, im_i) for complex data
+        if not (isF(t) and t.op == 'call'): return False
+        if not cplx: return t.args[0] == 'fabs' and isF(t.args[1]) and t.args[1].op == 'sym' and t.args[1].args[0] == f'x{i}'
+        return t.args[0] == 'hypot' and all(isF(a) and a.op == 'sym' for a in t.args[1:3]) and {t.args[1].args[0], t.args[2].args[0]} == {f'x{2 * i}', f'x{2 * i + 1}'}
+    for cplx in (0, 1):
+        for p in (3, 4, 5):
+            m = Machine(mod); w = 2 if cplx else 1; xs = [fsym(f'x{i}') for i in range(w * n)]
+            try: r = m.call('@h_normp', [cplx, p, m.alloc_doubles(xs, 'x'), n])
+            except (Throw, UB, Unsupported) as e: res.absorb(m); res.inc(f'norm p={p}: {type(e).__name__} {str(e)[:100]}'); continue
+            res.absorb(m); ok = isF(r) and r.op == 'call' and r.args[0] == 'pow' and not m.taken
+            if ok:
+                st = [r.args[1]]; leaves = []
+                while st:
+                    u = st.pop()
+                    if isF(u) and u.op == 'fadd': st.extend(u.args)
+                    elif not isF(u) and u == 0.0: pass
+                    else: leaves.append(u)
+                ok = len(leaves) == n and all(isF(u) and u.op == 'call' and u.args[0] == 'pow' and not isF(u.args[2]) and u.args[2] == float(p) for u in leaves)
+                if ok:
+                    idx = sorted(i for u in leaves for i in range(n) if mag_ok(u.args[1], i, cplx)); ok = idx == list(range(n)) and not isF(r.args[2]) and abs(r.args[2] - 1.0 / p) < 1e-15
+            label = f"norm({'complex ' if cplx else ''}x[{n}], {p})"
+            sol = z3.Solver(); sol.add(z3.Not(z3.BoolVal(bool(ok))))
+            if timed_check(sol, res) == z3.unsat: res.ob(True, 'UF', f'{label}: pow(sum_i pow(|x_i|, {p}), 1/{p}) over the element magnitudes, for every x')
+            else:
+                xv = [(-1.0) ** (i + 1) * (1.0 + 0.5 * i) for i in range(w * n)]
+                confirm(res, PID, HARNESS, 'h_normp', [('i32', cplx), ('i32', p), ('pf64', xv), ('i32', n)], 'f64', 'normp', ORACLES, f'norm:p={p}:{"cmplx" if cplx else "real"}', f'{label}: not the p-norm of the element magnitudes')
+            for xv in ([-1.0, 2.0, -3.0, 0.5, -0.25, 4.0][:w * n], [0.0] * (w * n), [-2.0] * (w * n)):
+                mm = Machine(mod); rr = mm.call('@h_normp', [cplx, p, mm.alloc_doubles(xv, 'x'), n]); res.absorb(mm)
+                bad, why = o_normp([('i32', cplx), ('i32', p), ('pf64', xv), ('i32', n)], {'status': 'ok', 'ret': rr}, None)
+                sol = z3.Solver(); sol.add(z3.BoolVal(bool(bad)))
+                if timed_check(sol, res) == z3.unsat: res.ob(True, 'ground', f'{label} at {xv}')
+                else: confirm(res, PID, HARNESS, 'h_normp', [('i32', cplx), ('i32', p), ('pf64', xv), ('i32', n)], 'f64', 'normp', ORACLES, f'norm:p={p}:{"cmplx" if cplx else "real"}', f'{label}: {why}')
+
+JOBFNS = {'normp': job_normp, 'round': job_round, 'cumsum': job_cumsum, 'power_points': job_power_points, 'power_sym': job_power_sym, 'arange_i': job_arange_i, 'arange_f': job_arange_f, 'shape': job_shape, 'reduce': job_reduce, 'linspace': job_linspace, 'angle': job_angle}
 
 def selftest(st):
     calls = [('h_arange_i', [('i32', a & 0xffffffff), ('i32', b & 0xffffffff), ('i32', s_ & 0xffffffff), ('pf64', [0.0] * 32), ('i32', 32)], 'i32') for a, b, s_ in [(0, 10, 1), (0, 10, 2), (1, 100 // 10, 3), (5, -5, -2), (-12, 12, 5)]]
@@ -492,7 +548,8 @@ def main(tier, seed):
     for n in ((1, 2, 5) if q else (1, 2, 3, 4, 5, 8, 16, 33)): jobs.append((f'cumsum n={n}', 'cumsum', dict(n=n), 600))
     for kind in range(13): jobs.append((f'power special points kind={kind}', 'power_points', dict(kinds=[kind]), 900))
     jobs.append(('power symbolic', 'power_sym', {}, 600)); jobs.append(('round', 'round', {}, 600))
-    for n in ((1, 2, 5) if q else (1, 2, 3, 5, 10, 33, 100)): jobs.append((f'linspace n={n}', 'linspace', dict(n=n), 600))
+    for n in ((1, 3) if q else (1, 2, 3, 5)): jobs.append((f'norm p n={n}', 'normp', dict(n=n), 600))
+    for n in ((1, 2, 3, 5, 8) if q else (1, 2, 3, 4, 5, 7, 10, 33, 100)): jobs.append((f'linspace n={n}', 'linspace', dict(n=n), 600))
     jobs.append(('angle special points', 'angle', {}, 300))
     return run_property(PID, tier, HARNESS, jobs, JOBFNS,
         level_text='Shapes and index arithmetic with symbolic ints: integer arange (stop and step symbolic in [-12,12], start enumerated; the round/convert chain is modelled with integer-part semantics) and '
